@@ -252,7 +252,9 @@ def c02_r5(ctx):
     else:
         tg = seq_items(v.get("targets"))
         val = v.get("value")
-        ok_t = isinstance(v.get("targets"), ListOf) and "$variable_names['query']" in chain(v.get("targets").gens[0][1].items[0] if isinstance(v.get("targets").gens[0][1], Seq) and v.get("targets").gens[0][1].items else Lit(0))
+        tv_ = v.get("targets")
+        ok_t = (isinstance(tv_, ListOf) and "$variable_names['query']" in chain(tv_.gens[0][1].items[0] if isinstance(tv_.gens[0][1], Seq) and tv_.gens[0][1].items else Lit(0))) or \
+            (isinstance(tv_, Seq) and len(tv_.items) == 1 and isinstance(tv_.items[0], Node) and tv_.items[0].kind == "Name" and chain(tv_.items[0].get("id")) == "$variable_names['query']")
         if not ok_t:
             probs.append("target is not the query local")
         if not (isinstance(val, Node) and val.kind == "Call" and isinstance(val.get("func"), Node) and chain(val.get("func").get("id")) in ("'gql'",)):
@@ -312,7 +314,7 @@ def _const_attr(repo, cls_key: str, attr: str):
 
 
 # ====================================================================== C02.R6
-@rule("C02.R6", "operations are validated against the schema with the full rule set before generation", min_instances=3, also=["C17"])
+@rule("C02.R6", "operations are validated against the schema with the full rule set before generation", min_instances=4, also=["C17"])
 def c02_r6(ctx):
     fi = ctx.repo.func("schema:get_graphql_queries")
     v = calls_named(fi.node, "validate")
@@ -342,6 +344,27 @@ def c02_r6(ctx):
         o = Interp(fi, atom).run()
         if errs:
             good = len(o) == 1 and o[0].kind == "raise" and o[0].exc == "InvalidOperationForSchema"
+            if good:
+                # the message names the problem: every validation error's message is part of it
+                from ..util import comp_struct
+                exc = o[0].value if isinstance(getattr(o[0], "value", None), ast.Call) else None
+                if exc is None:
+                    exc = next((r.exc for r in ast.walk(fi.node) if isinstance(r, ast.Raise) and r.exc is not None and "InvalidOperationForSchema" in norm(r.exc)), None)
+                msg = strip_pre(allargs(exc)[0]) if isinstance(exc, ast.Call) and allargs(exc) else None
+                msg = strip_pre(o[0].deref(msg)) if isinstance(msg, ast.Name) else msg
+                named = False
+                if msg is not None:
+                    for c in ast.walk(msg):
+                        cs = comp_struct(c) if isinstance(c, (ast.GeneratorExp, ast.ListComp)) else None
+                        if cs is not None and len(cs[1]) == 1 and not cs[1][0][1] and cs[0] in ("$0.message", "str($0)", "$0.formatted['message']", "f'{$0}'", "f'{$0.message}'"):
+                            itx = strip_pre(c.generators[0].iter)
+                            itx = strip_pre(o[0].deref(itx)) if isinstance(itx, ast.Name) else itx
+                            if isinstance(itx, ast.Call) and dotted(itx.func) == "validate":
+                                named = True
+                    if not named and any(isinstance(c, ast.Name) and c.id == "validation_errors" for c in ast.walk(msg)) and not any(isinstance(c, (ast.Subscript, ast.GeneratorExp, ast.ListComp)) for c in ast.walk(msg)):
+                        named = True      # the whole list is formatted into the message
+                ctx.check(named, key(fi, "message"), f"the InvalidOperationForSchema message is `{norm(msg)[:120] if msg is not None else None}`: it must carry the message of every validation error "
+                          "(a document with a single error would otherwise fail with an empty / partial text that does not name the problem)", fi.loc(), okmsg="error message = the messages of all validation errors")
         else:
             good = len(o) == 1 and o[0].kind == "return" and norm(strip_pre(o[0].value)) == "parse(load_graphql_files_from_path(Path(queries_path))).definitions"
         ctx.check(good, key(fi, f"errors={errs}"), f"validation errors={errs}: got {[x.text() for x in o]}", fi.loc(),
@@ -414,7 +437,7 @@ def c04_r2(ctx):
         ctx.error(f"only {writes} write sites found")
 
 
-@rule("C04.R3", "file-name collisions are detected over everything that is written, before anything is written", min_instances=4, also=["C18"])
+@rule("C04.R3", "file-name collisions are detected over everything that is written, before anything is written", min_instances=4, also=["C18", "C17"])
 def c04_r3(ctx):
     repo = ctx.repo
     pg = repo.cls(PG)
@@ -435,25 +458,41 @@ def c04_r3(ctx):
                 written[norm(b.right)] = (fi, c)
     if len(written) < 10:
         raise AnalysisError(f"only {len(written)} written file-name expressions found")
+    # the checked list, member by member (whatever way it is assembled)
+    from ..util import seq_terms
+    cond = lambda e: True if (norm(e).startswith("len(") and "!=" in norm(e)) else None
+    vo = [x for x in Interp(val, cond).run()]
+    fn_expr = None
+    for x in vo:
+        for nm in ("file_names",) + tuple(x.env):
+            v = x.env.get(nm)
+            if v is not None and isinstance(strip_pre(v), (ast.BinOp, ast.List, ast.Call)) and "client_file_name" in norm(v):
+                fn_expr = v
+                break
+        if fn_expr is not None:
+            break
+    if fn_expr is None:
+        raise AnalysisError("the list of checked file names was not found in _validate_unique_file_names")
+    members = set(seq_terms(fn_expr))
     covered_by = {
         "f'{self.client_file_name}.py'": "f'{self.client_file_name}.py'",
         "f'{self.enums_module_name}.py'": "f'{self.enums_module_name}.py'",
         "f'{self.input_types_module_name}.py'": "f'{self.input_types_module_name}.py'",
         "f'{self.fragments_module_name}.py'": "f'{self.fragments_module_name}.py'",
-        "file_name": "list(self._result_types_files)",
-        "source_path.name": "self.files_to_include",
+        "file_name": "each self._result_types_files",
+        "source_path.name": "each $0.name for self.files_to_include",
     }
     tabled = {"'__init__.py'": "snake-casing an operation name never yields a dunder module name; the other names are validated identifiers"}
     for expr, (fi, c) in sorted(written.items()):
-        if expr in covered_by and covered_by[expr] in src:
+        if expr in covered_by and any(covered_by[expr] == m for m in members):
             ctx.ok(f"{fi.qualname}: {expr} is part of the uniqueness check", fi.loc(c))
         elif expr in tabled:
             ctx.ok(f"{fi.qualname}: {expr} (tabled: {tabled[expr][:60]})", fi.loc(c))
         else:
-            ctx.fail(key(fi, f"writes {expr}"), f"{expr} is written into the package but is not part of _validate_unique_file_names: an operation or included file of that name is silently overwritten", fi.loc(c))
+            ctx.fail(key(fi, f"writes {expr}"), f"{expr} is written into the package but is not part of _validate_unique_file_names (checked: {sorted(members)}): an operation or included file of that name is silently overwritten", fi.loc(c))
     # copied files: base client and base model are in the list too
     for need in ("self.base_client_file_path.name", "self.base_model_file_path.name"):
-        ctx.check(need in src, key(val, need), f"{need} is copied into the package but not checked for collisions", val.loc(), okmsg=f"{need} is part of the uniqueness check")
+        ctx.check(any(need == m for m in members), key(val, need), f"{need} is copied into the package but not checked for collisions", val.loc(), okmsg=f"{need} is part of the uniqueness check")
     # the check raises on duplicates
     o = Interp(val, lambda e: True if "len(file_names) != len(set(file_names))" == norm(strip_pre(e)) or norm(e).startswith("len(") and "!=" in norm(e) else None).run()
     ctx.check(bool(o) and all(x.kind == "raise" and x.exc == "ParsingError" for x in o), key(val, "raises"), f"duplicates do not raise ParsingError: {[x.text() for x in o]}", val.loc(), okmsg="duplicate names raise ParsingError")
@@ -524,7 +563,7 @@ def c04_r5(ctx):
     ctx.check(good, key(ai, "add"), f"add_import does not record the import as given: {[x.text() for x in o]}", ai.loc(), okmsg="add_import records names/from/level unchanged")
 
 
-@rule("C04.R6", "classes with forward references are rebuilt after all classes are defined", min_instances=3, also=["C06", "C09", "C01"])
+@rule("C04.R6", "classes with forward references are rebuilt after all classes are defined", min_instances=6, also=["C06", "C09", "C01"])
 def c04_r6(ctx):
     repo = ctx.repo
     for fk in ("client_generators.result_types:ResultTypesGenerator.generate", "client_generators.input_types:InputTypesGenerator.generate"):
@@ -564,6 +603,30 @@ def c04_r6(ctx):
     vn = mh.methods.get("visit_Name")
     good = vn is not None and any(isinstance(n, ast.Compare) and norm(n) == "'\"' in node.id" for n in ast.walk(vn.node))
     ctx.check(good, "codegen::ClassDefNamesVisitor.visit_Name::quote test", "forward references are no longer detected by the quoted-name convention", mh.loc(), okmsg="forward refs detected by quoted names")
+    vs = mh.methods.get("visit_Subscript")
+    if vs is None:
+        ctx.ok("ClassDefNamesVisitor has no visit_Subscript: every subscript is searched (NodeVisitor default)", mh.loc())
+    else:
+        def mk(is_name, is_literal):
+            def atom(e):
+                t = norm(strip_pre(e))
+                if t == "isinstance(node.value, ast.Name)":
+                    return is_name
+                if t in ("node.value.id == 'Literal'", "node.value.id == LITERAL"):
+                    return is_literal
+                if t in ("node.value.id != 'Literal'", "node.value.id != LITERAL"):
+                    return not is_literal
+                return None
+            return atom
+        for is_name, is_literal, descend in ((True, False, True), (False, False, True), (True, True, None)):
+            outs = Interp(vs, mk(is_name, is_literal), is_effect=lambda c: norm(c.func) in ("self.generic_visit", "self.visit", "super().generic_visit")).run()
+            desc = [bool(o.effects) for o in outs]
+            if descend is None:
+                ctx.ok(f"visit_Subscript: Literal[...] {'searched' if all(desc) else 'skipped'} (either is sound: its strings are values, not references)", vs.loc())
+            else:
+                ctx.check(bool(desc) and all(desc), "codegen::ClassDefNamesVisitor.visit_Subscript::descends " + ("Name[...]" if is_name else "other[...]"),
+                          "annotations such as Optional[\"Other\"] / List[\"Other\"] are no longer searched for forward references: the class is not rebuilt and the model is unusable "
+                          "(`class not fully defined`)", vs.loc(), okmsg=f"visit_Subscript descends into {'Name[...]' if is_name else 'other[...]'} (non-Literal)")
     mrm = repo.resolve(repo.mod("client_generators.constants"), "MODEL_REBUILD_METHOD")
     ctx.check(mrm == ("const", "model_rebuild"), "client_generators.constants::MODEL_REBUILD_METHOD", f"MODEL_REBUILD_METHOD is {mrm}", "", okmsg="MODEL_REBUILD_METHOD == 'model_rebuild'")
 
@@ -1115,7 +1178,7 @@ def c17_r1(ctx):
     ctx.check(good, "settings::ClientSettings::files_to_include", "files_to_include entries are not each checked to be files", "", okmsg="every files_to_include entry checked")
 
 
-@rule("C17.R2", "the validators reject what they name (abstract evaluation over small domains)", min_instances=8)
+@rule("C17.R2", "the validators reject what they name (abstract evaluation over small domains)", min_instances=8, also=["C16", "C04"])
 def c17_r2(ctx):
     repo = ctx.repo
     fi = repo.func("settings:assert_string_is_valid_python_identifier")
@@ -1351,3 +1414,158 @@ def c17_r6(ctx):
     gs = repo.func("config:get_section")
     rs = [r for r in walk_no_nested(gs.node) if isinstance(r, ast.Raise)]
     ctx.check(len(rs) == 1 and "MissingConfiguration" in norm(rs[0]), key(gs, "no section"), "a missing [tool.ariadne-codegen] section is not reported as MissingConfiguration", gs.loc(), okmsg="missing section -> MissingConfiguration")
+
+
+# accessor -> the attribute it hands out; each pair confirmed by reading (private attribute renames are undone by the loader)
+ACCESSORS = {
+    "client_generators.arguments:ArgumentsGenerator.get_used_enums": "self._used_enums",
+    "client_generators.arguments:ArgumentsGenerator.get_used_inputs": "self._used_inputs",
+    "client_generators.arguments:ArgumentsGenerator.get_used_custom_scalars": "self._used_custom_scalars",
+    "client_generators.custom_fields_typing:CustomFieldsTypingGenerator.get_generated_public_names": "self._public_names",
+    "client_generators.enums:EnumsGenerator.get_generated_public_names": "self._generated_public_names",
+    "client_generators.fragments:FragmentsGenerator.get_generated_public_names": "self._generated_public_names",
+    "client_generators.fragments:FragmentsGenerator.get_used_enums": "self._used_enums",
+    "client_generators.input_types:InputTypesGenerator.get_generated_public_names": "self._generated_public_names",
+    "client_generators.result_types:ResultTypesGenerator.get_imports": "self._imports",
+    "client_generators.result_types:ResultTypesGenerator.get_classes": "self._class_defs",
+    "client_generators.result_types:ResultTypesGenerator.get_generated_public_names": "self._public_names",
+    "client_generators.result_types:ResultTypesGenerator.get_unpacked_fragments": "self._unpacked_fragments",
+    "client_generators.result_types:ResultTypesGenerator.get_fragments_used_as_mixins": "self._fragments_used_as_mixins",
+    "client_generators.result_types:ResultTypesGenerator.get_used_enums": "self._used_enums",
+}
+
+
+@rule("C09.R5", "accessors hand out the accumulator they are named after; aggregating generators feed theirs from every sub-generator", min_instances=16,
+      also=["C04", "C07", "C03", "C08", "C01"])
+def c09_r5(ctx):
+    repo = ctx.repo
+    for k, attr in ACCESSORS.items():
+        fi = repo.func(k)
+        outs = [o for o in Interp(fi, lambda e: None).run() if o.kind == "return"]
+        got = sorted({norm(strip_pre(o.deref(o.value) if isinstance(o.value, ast.Name) else o.value)) for o in outs if o.value is not None})
+        ok = bool(got) and all(g == attr or g in (f"list({attr})", f"sorted({attr})", f"{attr}.copy()", f"set({attr})", f"{attr}[:]") for g in got)
+        ctx.check(ok, key(fi, "returns"), f"{fi.qualname} returns {got}, not {attr}: its consumers (imports, __all__, pruning of unused enums / inputs, ordering of fragment classes) read another collection", fi.loc(),
+                  okmsg=f"{fi.qualname} -> {attr}")
+    # accessors not in the table: the attribute's words must occur in the accessor name (new accessors follow the convention)
+    for fi in repo.all_functions():
+        if fi.cls is None or not fi.node.name.startswith("get_") or len(fi.node.args.args) != 1 or fi.key in ACCESSORS or not fi.module.short.startswith("client_generators") \
+                or fi.module.short.startswith("client_generators.dependencies"):
+            continue
+        rets = [strip_pre(n.value) for n in walk_no_nested(fi.node) if isinstance(n, ast.Return) and n.value is not None]
+        if len(rets) == 1 and isinstance(rets[0], ast.Attribute) and isinstance(rets[0].value, ast.Name) and rets[0].value.id == "self":
+            words = [w for w in rets[0].attr.strip("_").split("_") if w]
+            have = fi.node.name.split("_")
+            ctx.check(all(any(w.rstrip("s") == h.rstrip("s") or h.startswith(w[:5]) for h in have) for w in words), key(fi, "returns"),
+                      f"{fi.qualname} returns self.{rets[0].attr}, which it is not named after", fi.loc(), okmsg=f"{fi.qualname} -> self.{rets[0].attr} (by name)")
+    # the fragments module is built from one ResultTypesGenerator per fragment: what the package takes from the per-operation
+    # generator must be taken from the per-fragment generators too, into the attribute of the same accessor
+    fg = repo.func("client_generators.fragments:FragmentsGenerator.generate")
+    o = [x for x in Interp(fg, lambda e: (True if norm(strip_pre(e)) in ("class_defs",) else False if norm(strip_pre(e)) == "self.plugin_manager" else None)).run()]
+    need = {"get_used_enums": "self._used_enums", "get_generated_public_names": "self._generated_public_names"}
+    for acc, dest in need.items():
+        fed = False
+        for x in o:
+            for m in x.muts(dest):
+                if isinstance(m, ast.Call) and any(isinstance(c, ast.Call) and isinstance(c.func, ast.Attribute) and c.func.attr == acc for c in ast.walk(m)):
+                    fed = True
+            v = x.env.get(dest)
+            if v is not None and any(isinstance(c, ast.Call) and isinstance(c.func, ast.Attribute) and c.func.attr == acc for c in ast.walk(v)):
+                fed = True
+        if not fed:
+            # plain scan (the update may sit in a loop body the interpreter summarises)
+            for c in ast.walk(fg.node):
+                if isinstance(c, (ast.Call, ast.Assign, ast.AugAssign)) and dest in norm(c)[:len(dest) + 12] and f".{acc}(" in norm(c):
+                    fed = True
+        ctx.check(fed, key(fg, f"{dest} <- {acc}"), f"FragmentsGenerator.generate never adds the per-fragment generator's {acc}() to {dest}: "
+                  + ("enums used only inside fragments are pruned under include_all_enums=false and fragments.py fails to import" if acc == "get_used_enums" else "fragment classes are missing from the package's __init__"),
+                  fg.loc(), okmsg=f"fragments: {dest} fed from every per-fragment generator's {acc}()")
+    for acc, what in (("get_imports", "imports"), ("get_classes", "class definitions"), ("get_fragments_used_as_mixins", "mixin dependencies (ordering)")):
+        used = any(isinstance(c, ast.Call) and isinstance(c.func, ast.Attribute) and c.func.attr == acc for c in ast.walk(fg.node))
+        ctx.check(used, key(fg, acc), f"FragmentsGenerator.generate does not read the per-fragment generator's {what}", fg.loc(), okmsg=f"fragments: per-fragment {what} read")
+
+
+def _conjuncts(e: ast.AST) -> List[ast.AST]:
+    e = strip_pre(e)
+    if isinstance(e, ast.BoolOp) and isinstance(e.op, ast.And):
+        return [c for v in e.values for c in _conjuncts(v)]
+    return [e]
+
+
+@rule("C04.R11", "the per-kind selections over schema.type_map keep every type of the kind except introspection types (`__` prefix)", min_instances=3,
+      also=["C06", "C09", "C14"])
+def c04_r11(ctx):
+    from ..util import comp_struct
+    repo = ctx.repo
+    table = {
+        "client_generators.enums:EnumsGenerator._filter_enum_types": ({"isinstance($0_1, GraphQLEnumType)", "not $0_0.startswith('__')"}, "$0_1"),
+        "client_generators.input_types:InputTypesGenerator._filter_input_types": ({"isinstance($0_1, GraphQLInputObjectType)", "not $0_0.startswith('__')"}, "$0_1"),
+        "client_generators.custom_fields_typing:CustomFieldsTypingGenerator._filter_types":
+            ({"isinstance($0_1, GraphQLObjectType) or isinstance($0_1, GraphQLInterfaceType) or isinstance($0_1, GraphQLUnionType)", "not $0_0.startswith('__')", "$0_0 not in OPERATION_TYPES"},
+             "get_final_type($0_1)"),
+    }
+    for k, (conds, elem) in table.items():
+        fi = repo.func(k)
+        outs = [o for o in Interp(fi, lambda e: None).run() if o.kind == "return" and o.value is not None]
+        good = len(outs) == 1
+        got = None
+        if good:
+            v = strip_pre(outs[0].deref(outs[0].value) if isinstance(outs[0].value, ast.Name) else outs[0].value)
+            cs = comp_struct(v)
+            good = cs is not None and len(cs[1]) == 1
+            if good:
+                el, gens = cs
+                it, ifs = gens[0]
+                node = v.generators[0]
+                have = set()
+                for c in node.ifs:
+                    for cj in _conjuncts(c):
+                        have.add(cj)
+                # conditions, name-free
+                import copy as _copy
+                one = _copy.deepcopy(v)
+                one.generators[0].ifs = [cj for c in node.ifs for cj in _conjuncts(c)]
+                el2, gens2 = comp_struct(one)
+                got = (str(el2), str(gens2[0][0]), sorted(str(c) for c in gens2[0][1]))
+                good = el2 == elem and gens2[0][0] == "self.schema.type_map.items()" and len(gens2[0][1]) == len(conds) and all(any(c == w for c in gens2[0][1]) for w in conds)
+        ctx.check(good, key(fi, "selection"), f"{fi.qualname} selects {got}; expected {elem} over self.schema.type_map.items() under {sorted(conds)}: "
+                  "GraphQL reserves only the `__` prefix, so a schema type such as `_Service` / `_Any` (federation) must still be generated, and nothing of another kind may slip in", fi.loc(),
+                  okmsg=f"{fi.qualname}: kind test + `__` prefix only")
+
+
+
+@rule("C17.R7", "the configuration section is found under [tool.ariadne-codegen] or the deprecated top-level key; otherwise MissingConfiguration", min_instances=5)
+def c17_r7(ctx):
+    repo = ctx.repo
+    fi = repo.func("config:get_section")
+    p = fi.node.args.args[0].arg
+    TOOL, CG_ = "'tool'", "'ariadne-codegen'"
+
+    def mk(a, b, c):
+        def atom(e):
+            t = norm(strip_pre(e))
+            if t == f"{TOOL} in {p}":
+                return a
+            if t == f"{TOOL} not in {p}":
+                return not a
+            if t in (f"{CG_} in {p}.get({TOOL}, {{}})", f"{CG_} in {p}[{TOOL}]", f"{CG_} in ({p}.get({TOOL}) or {{}})"):
+                return b
+            if t == f"{CG_} in {p}":
+                return c
+            if t == f"{CG_} not in {p}":
+                return not c
+            return None
+        return atom
+    nested = f"{p}[{TOOL}][{CG_}]"
+    top = f"{p}[{CG_}]"
+    table = [((True, True, False), nested, "[tool.ariadne-codegen] present"), ((True, True, True), nested, "both present: [tool.ariadne-codegen] wins"),
+             ((True, False, True), top, "[tool.*] of other tools + deprecated top-level section"), ((False, False, True), top, "deprecated top-level section only"),
+             ((True, False, False), None, "[tool.*] of other tools only"), ((False, False, False), None, "no section at all")]
+    for (a, b, c), want, label in table:
+        outs = Interp(fi, mk(a, b, c), implicit_raises=set()).run()
+        if want is None:
+            good = bool(outs) and all(o.kind == "raise" and o.exc == "MissingConfiguration" for o in outs)
+        else:
+            good = bool(outs) and all(o.kind == "return" and norm(strip_pre(o.deref(o.value) if isinstance(o.value, ast.Name) else o.value)) in (want, want + ".copy()", f"dict({want})") for o in outs)
+        ctx.check(good, key(fi, label), f"{label}: expected {'MissingConfiguration' if want is None else want}, got {[o.text()[:100] for o in outs]}"
+                  + (" (a pyproject.toml that configures other tools only must fail with MissingConfiguration, not KeyError)" if want is None else ""), fi.loc(),
+                  okmsg=f"{label} -> {'MissingConfiguration' if want is None else want}")
